@@ -9,6 +9,7 @@
 const char* vf_property_id() { return "C03"; }
 static bool g_thorough = false;
 static std::vector<uint8_t> g_golden_dict;
+static std::vector<std::vector<uint8_t>> g_legacy;   // sample frames of older format versions
 
 static std::vector<uint8_t> slurp(const std::string& p) {
     std::vector<uint8_t> v; FILE* f = fopen(p.c_str(), "rb"); if (!f) return v;
@@ -18,6 +19,29 @@ void vf_setup() {
     const char* e = getenv("VERIF_TIER"); g_thorough = e && !strcmp(e, "thorough");
     const char* repo = getenv("VERIF_REPO");
     g_golden_dict = slurp(std::string(repo ? repo : "/repo") + "/tests/golden-dictionaries/http-dict-missing-symbols");
+    // sample frames of the legacy formats still compiled in (v0.5 - v0.7 with ZSTD_LEGACY_SUPPORT=5) and of v0.8: the tree's
+    // own test vector, the C string COMPRESSED in tests/legacy.c, split into frames
+    std::vector<uint8_t> src = slurp(std::string(repo ? repo : "/repo") + "/tests/legacy.c");
+    std::string txt(src.begin(), src.end());
+    size_t at = txt.find("const char* const COMPRESSED =");
+    if (at != std::string::npos) {
+        std::vector<uint8_t> blob; size_t end = txt.find(';', at);
+        bool in = false;
+        for (size_t i = at; i < end && i < txt.size(); i++) {
+            char ch = txt[i];
+            if (ch == '"') { in = !in; continue; }
+            if (!in) continue;
+            if (ch == '\\' && i + 3 < txt.size() && txt[i + 1] == 'x') { blob.push_back((uint8_t)strtoul(txt.substr(i + 2, 2).c_str(), nullptr, 16)); i += 3; }
+            else blob.push_back((uint8_t)ch);
+        }
+        // cut at the magic numbers 0xFD2FB524..28 (the first sample is v0.4, which this build does not decode)
+        std::vector<size_t> starts;
+        for (size_t i = 0; i + 4 <= blob.size(); i++) if (blob[i] >= 0x24 && blob[i] <= 0x28 && blob[i + 1] == 0xB5 && blob[i + 2] == 0x2F && blob[i + 3] == 0xFD) starts.push_back(i);
+        for (size_t i = 0; i < starts.size(); i++) {
+            size_t e2 = i + 1 < starts.size() ? starts[i + 1] : blob.size();
+            g_legacy.emplace_back(blob.begin() + (long)starts[i], blob.begin() + (long)e2);
+        }
+    }
 }
 
 struct Controls {
@@ -243,7 +267,7 @@ static Controls controls_from_back(vf::Tape& t) {
     k.dictMode = (unsigned)t.range_back(0, 3);
     k.dictLen = (size_t)t.range_back(0, 2048);
     static const size_t caps[] = {1u << 17, 0, 1, 7, 100, 4096, 65536, 1u << 20, 300000, 131075};
-    k.cap = caps[t.range_back(0, 9)];
+    { unsigned ci = (unsigned)t.range_back(0, 15); k.cap = ci < 10 ? caps[ci] : (size_t)t.range_back(0, 700); }   // the list, or any small capacity (legacy sample frames regenerate ~240 bytes)
     k.ichunk = (size_t)t.range_back(0, 4096);
     k.ochunk = (size_t)t.range_back(0, 70000);
     k.magicless = t.range_back(0, 7) == 7;
@@ -273,6 +297,15 @@ void vf_case(vf::Ctx& c) {
     k.nDDicts = t.chance(25) ? (unsigned)t.range(1, 40) : 0;
     k.seed = (uint32_t)t.raw();
     std::vector<uint8_t> bytes;
+    if (!g_legacy.empty() && t.chance(8)) {
+        // a frame of an older format version (decoded by lib/legacy), with a capacity around what it regenerates
+        bytes = g_legacy[(size_t)t.range(0, g_legacy.size() - 1)];
+        std::vector<uint8_t> tmp(1u << 16);
+        size_t full = ZSTD_decompress(tmp.data(), tmp.size(), bytes.data(), bytes.size());
+        if (!ZSTD_isError(full)) { long d = (long)t.range(0, 300) - 20; k.cap = (size_t)std::max<long>(0, (long)full - d); }
+        k.magicless = false;
+        c.label("legacy_format_frames");
+    } else
     {
         struct Cx { ZSTD_CCtx* c = ZSTD_createCCtx(); ~Cx() { ZSTD_freeCCtx(c); } } cx;
         se::EncOpts eo;
